@@ -347,6 +347,7 @@ pub fn run_c13(tier: Tier) -> i32 {
             ("positives/<=2members,<=1field,budget1/4-layouts", g(2, 1, 1, 0, &four, 1)),
             ("positives/<=1member,<=2fields,budget2/4-layouts", g(1, 2, 2, 0, &four, 1)),
             ("positives/comments/<=2members,<=1field,budget0", g(2, 1, 0, 1, &[Layout::Lines], 1)),
+            ("positives/comments/<=1member,<=2fields,budget0", g(1, 2, 0, 1, &[Layout::Lines], 1)),
             ("positives/names/<=1member,<=1field,budget1/5-layouts", g(1, 1, 1, 0, &all, 6)),
         ],
         Tier::Thorough => vec![
@@ -537,6 +538,8 @@ pub fn run_c14(tier: Tier) -> i32 {
             ("plain/<=2members,<=1field,budget1", RoundTrip { gen: g(2, 1, 1, 0, 2), exchange: false }),
             ("plain/<=1member,<=2fields,budget2", RoundTrip { gen: g(1, 2, 2, 0, 1), exchange: false }),
             ("comments/<=2members,<=1field,budget0", RoundTrip { gen: g(2, 1, 0, 1, 1), exchange: false }),
+            // comments on fields / parameters / variants that are not the first of their list
+            ("comments/<=1member,<=2fields,budget0", RoundTrip { gen: g(1, 2, 0, 1, 1), exchange: false }),
             ("exchange/<=2members,<=1field,budget0+comments", RoundTrip { gen: g(2, 1, 0, 1, 2), exchange: true }),
         ],
         Tier::Thorough => vec![
@@ -544,6 +547,8 @@ pub fn run_c14(tier: Tier) -> i32 {
             ("plain/<=2members,<=2fields,budget2", RoundTrip { gen: g(2, 2, 2, 0, 1), exchange: false }),
             ("plain/<=1member,<=2fields,budget3", RoundTrip { gen: g(1, 2, 3, 0, 1), exchange: false }),
             ("comments/<=2members,<=1field,budget1", RoundTrip { gen: g(2, 1, 1, 1, 1), exchange: false }),
+            ("comments/<=1member,<=3fields,budget0", RoundTrip { gen: g(1, 3, 0, 1, 1), exchange: false }),
+            ("comments/<=2members,<=2fields,budget0", RoundTrip { gen: g(2, 2, 0, 1, 1), exchange: false }),
             ("exchange/<=2members,<=1field,budget1+comments", RoundTrip { gen: g(2, 1, 1, 1, 2), exchange: true }),
         ],
     };
